@@ -23,15 +23,17 @@ import (
 const gomod = "github.com/goccmack/gocc"
 
 type Prog struct {
-	Dir     string
-	ModPath string
-	Fset    *token.FileSet
-	Pkgs    map[string]*packages.Package // by import path, module packages only
-	All     []*packages.Package
-	SSA     *ssa.Program
-	CG      *callgraph.Graph
-	Reach   map[*ssa.Function]bool // module functions reachable from main + inits
-	AllFns  map[*ssa.Function]bool
+	Dir       string
+	ModPath   string
+	Fset      *token.FileSet
+	Pkgs      map[string]*packages.Package // by import path, module packages only
+	All       []*packages.Package
+	SSA       *ssa.Program
+	CG        *callgraph.Graph
+	Reach     map[*ssa.Function]bool // module functions reachable from main + inits
+	AllFns    map[*ssa.Function]bool
+	PkgErrors map[string][]string // type errors of overlay-only packages (fixtures, generated model)
+	GM        *GM
 }
 
 // LoadProg loads the module rooted at dir (pattern patterns), builds SSA; the
@@ -58,9 +60,14 @@ func LoadProgOverlay(dir, modPath string, wantCG bool, overlay map[string][]byte
 	}
 	p := &Prog{Dir: dir, ModPath: modPath, Pkgs: map[string]*packages.Package{}}
 	var errs []string
+	p.PkgErrors = map[string][]string{}
 	packages.Visit(pkgs, nil, func(pk *packages.Package) {
 		for _, e := range pk.Errors {
-			errs = append(errs, e.Error())
+			if strings.Contains(pk.PkgPath, "/internal/zz") {
+				p.PkgErrors[pk.PkgPath] = append(p.PkgErrors[pk.PkgPath], e.Error())
+			} else {
+				errs = append(errs, e.Error())
+			}
 		}
 		if pk.PkgPath == modPath || strings.HasPrefix(pk.PkgPath, modPath+"/") {
 			p.Pkgs[pk.PkgPath] = pk
